@@ -258,6 +258,8 @@ def verify_function(contract, reg, repo=REPO):
     V.ykey_type = ykey_type
     V.oblige_spec_nonempty = lambda st, sep, node: V.may_raise(
         st, z3.Length(sep) > 0, 'ValueError', 'empty separator', node)
+    from . import values as _values
+    del _values.PENDING_FACTS[:]
     try:
         reg.build_rec(V)
         install_axioms(V)
@@ -311,6 +313,7 @@ def verify_function(contract, reg, repo=REPO):
     except RecursionError:
         res.status = 'undecided'
         res.reason = 'engine recursion limit'
+    V.axioms.extend(_values.PENDING_FACTS)     # definitions of fresh model constants (reversed, ...)
     res.obligations = V.obligations
     res.assumed = sorted(V.assumed_used)
     res.dropped = V.dropped_calls
@@ -341,6 +344,12 @@ def exit_obligations(V, outs, entry, is_gen):
                 val = as_sv(val, c.ret) if c.ret != NONE else MNONE
             env = dict(entry.env)
             env['result'] = val
+            if c.yield_key and is_gen:
+                ks = st.ghost.get('ykeys')
+                if ks is None:
+                    kt = V.ykey_type()
+                    ks = SV(SetT(kt), z3.K(sort_of(kt), False))
+                env['YKEYS'] = ks
             V.exits.append(('normal', st, val))
             for e in c.ensures + c.ensures_all:
                 ps = post_state(st, env)
